@@ -443,32 +443,34 @@ func privateCell(v ssa.Value) *ssa.Alloc {
 	return al
 }
 
-// reachAvoiding computes the set of blocks reachable from the entry block when
-// the given blocks and edges are removed from the CFG.
+// reachAvoiding computes the set of blocks reachable from block from (the
+// entry when nil) in fn's flattened view when the given blocks and edges are
+// removed. Blocks of spliced helpers are part of the result.
 type edge struct{ from, to *ssa.BasicBlock }
 
 func reachAvoiding(fn *ssa.Function, from *ssa.BasicBlock, avoidB map[*ssa.BasicBlock]bool, avoidE map[edge]bool) map[*ssa.BasicBlock]bool {
-	seen := map[*ssa.BasicBlock]bool{}
+	fl := flatOf(fn)
+	out := map[*ssa.BasicBlock]bool{}
+	if len(fl.Blocks) == 0 {
+		return out
+	}
+	var starts []*FB
 	if from == nil {
-		from = fn.Blocks[0]
-	}
-	if avoidB[from] {
-		return seen
-	}
-	stack := []*ssa.BasicBlock{from}
-	seen[from] = true
-	for len(stack) > 0 {
-		b := stack[len(stack)-1]
-		stack = stack[:len(stack)-1]
-		for _, s := range b.Succs {
-			if avoidB[s] || avoidE[edge{b, s}] || seen[s] {
-				continue
+		starts = []*FB{fl.Blocks[0]}
+	} else {
+		for _, s := range fl.segs[from] {
+			if s.Lo == 0 {
+				starts = append(starts, s)
 			}
-			seen[s] = true
-			stack = append(stack, s)
 		}
 	}
-	return seen
+	r := fl.reach(starts, func(s *FB) bool { return avoidB[s.B] }, func(a, b *FB) bool {
+		return a.Ctx == b.Ctx && avoidE[edge{a.B, b.B}]
+	})
+	for s := range r {
+		out[s.B] = true
+	}
+	return out
 }
 
 // instrIndex returns the index of i in its block.
@@ -481,43 +483,22 @@ func instrIndex(i ssa.Instruction) int {
 	return -1
 }
 
-// mustPrecede: on every path from the function entry to instruction b,
-// instruction a has executed before. (Block-level: b's block is unreachable
-// once a's block is removed; same block: index order.)
+// mustPrecede: on every path of fn's flattened view from the entry to
+// instruction b, instruction a has executed before.
 func mustPrecede(fn *ssa.Function, a, b ssa.Instruction) bool {
-	if a.Block() == b.Block() {
-		if instrIndex(a) < instrIndex(b) {
-			return true
-		}
-		// same block but a after b: only OK if the block can't be re-entered... no.
-		return false
-	}
-	r := reachAvoiding(fn, nil, map[*ssa.BasicBlock]bool{a.Block(): true}, nil)
-	return !r[b.Block()]
+	return flatOf(fn).MustPrecede(a, b)
 }
 
-// canReach: is there a CFG path from instruction a to instruction b (a strictly before b)?
+// canReach: is there a path from instruction a to instruction b (a strictly
+// before b)? Decided in the flattened view of root when both lie in it, else
+// within a's own function.
 func canReach(a, b ssa.Instruction) bool {
-	if a.Block() == b.Block() && instrIndex(a) < instrIndex(b) {
-		return true
-	}
-	fn := a.Parent()
-	seen := map[*ssa.BasicBlock]bool{}
-	stack := append([]*ssa.BasicBlock{}, a.Block().Succs...)
-	for len(stack) > 0 {
-		x := stack[len(stack)-1]
-		stack = stack[:len(stack)-1]
-		if seen[x] {
-			continue
-		}
-		seen[x] = true
-		if x == b.Block() {
-			return true
-		}
-		stack = append(stack, x.Succs...)
-	}
-	_ = fn
-	return false
+	return flatOf(a.Parent()).CanReach(a, b)
+}
+
+// canReachIn is canReach in the flattened view of root.
+func canReachIn(root *ssa.Function, a, b ssa.Instruction) bool {
+	return flatOf(root).CanReach(a, b)
 }
 
 // hasLoop reports whether the function's CFG has a cycle.
@@ -541,132 +522,6 @@ func hasLoop(fn *ssa.Function) bool {
 		return false
 	}
 	return dfs(fn.Blocks[0])
-}
-
-// A CPath is one entry-to-exit path through an acyclic (or bounded-visit) CFG.
-type CPath struct {
-	Blocks []*ssa.BasicBlock
-}
-
-func (p CPath) Instrs() []ssa.Instruction {
-	var out []ssa.Instruction
-	for _, b := range p.Blocks {
-		out = append(out, b.Instrs...)
-	}
-	return out
-}
-
-// Last returns the terminating instruction of the path.
-func (p CPath) Last() ssa.Instruction {
-	b := p.Blocks[len(p.Blocks)-1]
-	return b.Instrs[len(b.Instrs)-1]
-}
-
-// Took reports, for an If instruction on the path, which arm was taken
-// (true arm = Succs[0]); ok=false when the If is not on the path or is last.
-func (p CPath) Took(ifi *ssa.If) (arm bool, ok bool) {
-	for k, b := range p.Blocks {
-		if b == ifi.Block() && k+1 < len(p.Blocks) {
-			return p.Blocks[k+1] == b.Succs[0], true
-		}
-	}
-	return false, false
-}
-
-// PhiValue resolves a phi on this path to the incoming value selected by the
-// predecessor actually taken.
-func (p CPath) PhiValue(phi *ssa.Phi) ssa.Value {
-	for k, b := range p.Blocks {
-		if b == phi.Block() && k > 0 {
-			prev := p.Blocks[k-1]
-			for i, pr := range b.Preds {
-				if pr == prev {
-					return phi.Edges[i]
-				}
-			}
-		}
-	}
-	return nil
-}
-
-// Resolve follows phis along the path.
-func (p CPath) Resolve(v ssa.Value) ssa.Value {
-	for i := 0; i < 32; i++ {
-		if al := privateCell(v); al != nil {
-			// last store to the cell on this path before the load
-			var last ssa.Value
-			done := false
-			for _, b := range p.Blocks {
-				for _, in := range b.Instrs {
-					if in == v.(ssa.Instruction) {
-						done = true
-						break
-					}
-					if st, ok := in.(*ssa.Store); ok && st.Addr == ssa.Value(al) {
-						last = st.Val
-					}
-				}
-				if done {
-					break
-				}
-			}
-			if last == nil {
-				return v
-			}
-			v = last
-			continue
-		}
-		ph, ok := v.(*ssa.Phi)
-		if !ok {
-			return v
-		}
-		nv := p.PhiValue(ph)
-		if nv == nil {
-			return v
-		}
-		v = nv
-	}
-	return v
-}
-
-// enumPaths enumerates entry→exit paths visiting each block at most maxVisits
-// times. It returns false if more than limit paths exist (caller must treat
-// that as undecided).
-func enumPaths(fn *ssa.Function, maxVisits, limit int, visit func(CPath)) bool {
-	if len(fn.Blocks) == 0 {
-		return true
-	}
-	count := 0
-	visits := map[*ssa.BasicBlock]int{}
-	var cur []*ssa.BasicBlock
-	ok := true
-	var rec func(b *ssa.BasicBlock)
-	rec = func(b *ssa.BasicBlock) {
-		if !ok {
-			return
-		}
-		if visits[b] >= maxVisits {
-			return
-		}
-		visits[b]++
-		cur = append(cur, b)
-		if len(b.Succs) == 0 {
-			count++
-			if count > limit {
-				ok = false
-			} else {
-				visit(CPath{Blocks: append([]*ssa.BasicBlock{}, cur...)})
-			}
-		} else {
-			for _, s := range b.Succs {
-				rec(s)
-			}
-		}
-		cur = cur[:len(cur)-1]
-		visits[b]--
-	}
-	rec(fn.Blocks[0])
-	return ok
 }
 
 // ---------------------------------------------------------------- misc
@@ -720,6 +575,29 @@ func allInstrs(fn *ssa.Function, withClosures bool, f func(ssa.Instruction)) {
 			allInstrs(a, true, f)
 		}
 	}
+}
+
+// viewInstrs visits every instruction of fn's flattened view once (the
+// function's own instructions first, then those of the helpers spliced into it).
+func viewInstrs(fn *ssa.Function, f func(ssa.Instruction)) {
+	seen := map[ssa.Instruction]bool{}
+	flatOf(fn).All(func(in ssa.Instruction, _ *FB) {
+		if !seen[in] {
+			seen[in] = true
+			f(in)
+		}
+	})
+}
+
+// viewIfs lists the conditional branches of fn's flattened view.
+func viewIfs(fn *ssa.Function) []*ssa.If {
+	var out []*ssa.If
+	viewInstrs(fn, func(in ssa.Instruction) {
+		if i, ok := in.(*ssa.If); ok {
+			out = append(out, i)
+		}
+	})
+	return out
 }
 
 func fnContainsCallTo(fn *ssa.Function, names ...string) (ssa.Instruction, int) {
